@@ -688,6 +688,76 @@ func (c *VC) intrinsic(st *State, fn *types.Func, call *ast.CallExpr) ([]*Term, 
 		if r, ok := c.sortSliceIntrinsic(st, call); ok {
 			return r, true
 		}
+	case "unicode/utf8.DecodeRune", "unicode/utf8.DecodeRuneInString":
+		// uninterpreted (rune, size) plus the documented size facts: 0 for empty input, otherwise
+		// between 1 and min(4, len); a byte below 0x80 decodes to itself with size 1
+		{
+			arg := c.eval(st, call.Args[0])
+			var sv *Term
+			if u, ok := c.typeOf(call.Args[0]).Underlying().(*types.Slice); ok {
+				_, h := c.sliceHeap(st, u.Elem())
+				sv = mkCtor(c.strSort(), c.sel(h, mkField(arg, "sl_base")), mkField(arg, "sl_off"), mkField(arg, "sl_len"))
+			} else {
+				sv = arg
+			}
+			rt := types.Typ[types.Int32]
+			r := c.uf("pure_utf8_DecodeRune_0", c.sortOf(rt), sv)
+			n := c.uf("pure_utf8_DecodeRune_1", c.sortOf(it), sv)
+			if !c.noName && c.quantDepth == 0 && c.mode == ModeInt {
+				key := "dr:" + n.String()
+				if !c.specAxioms[key] {
+					c.specAxioms[key] = true
+					c.assumptions["utf8.DecodeRune: size facts and the ASCII case are taken from its documentation (assumed)"] = true
+					ln := mkField(sv, "st_len")
+					empty := mkEq(ln, c.idxLit(0))
+					c.addFact(tTrue, c.wfAt(st, r, rt))
+					c.addFact(tTrue, mkIte(empty, mkEq(n, c.idxLit(0)),
+						mkAnd(c.cmp(token.LEQ, c.idxLit(1), n, it), c.cmp(token.LEQ, n, ln, it), c.cmp(token.LEQ, n, c.idxLit(4), it))))
+					b0 := c.strByte(sv, c.idxLit(0))
+					u8 := types.Typ[types.Uint8]
+					c.addFact(tTrue, mkImplies(mkAnd(mkNot(empty), c.cmp(token.LSS, b0, c.numLit(bigInt(0x80), u8), u8)),
+						mkAnd(mkEq(n, c.idxLit(1)), mkEq(r, c.convertInt(b0, u8, rt)))))
+				}
+			}
+			return []*Term{r, n}, true
+		}
+	case "strconv.ParseUint":
+		// uninterpreted result pair plus the documented facts for a constant base of 16: a successful
+		// parse means the text is non-empty and consists of hexadecimal digits only (no sign, no
+		// underscores, no prefix), and the value fits the requested bit size
+		if len(call.Args) == 3 {
+			sv := c.eval(st, call.Args[0])
+			bv := c.eval(st, call.Args[1])
+			zv := c.eval(st, call.Args[2])
+			u64 := types.Typ[types.Uint64]
+			v := c.uf("pure_strconv_ParseUint_0", c.sortOf(u64), sv, bv, zv)
+			e := c.uf("pure_strconv_ParseUint_1", sortInt, sv, bv, zv)
+			if !c.noName && c.quantDepth == 0 {
+				key := "pu:" + v.String()
+				if !c.specAxioms[key] {
+					c.specAxioms[key] = true
+					c.assumptions["strconv.ParseUint: a successful base-16 parse implies a non-empty all-hex-digit text and a value within the bit size (documented behaviour, assumed)"] = true
+					c.addFact(tTrue, c.wfAt(st, v, u64))
+					ok := mkEq(e, intLit64(0))
+					if bv.Val != nil && bv.Val.Int64() == 16 && c.mode == ModeInt {
+						ln := mkField(sv, "st_len")
+						k := c.boundVar("k", c.idxSort())
+						c.varBounds[k.Op] = interval{bigInt(0), pow2(maxLenBits)}
+						ch := c.strByte(sv, k)
+						lit := func(x byte) *Term { return c.numLit(bigInt(int64(x)), types.Typ[types.Uint8]) }
+						u8 := types.Typ[types.Uint8]
+						rng := func(lo, hi byte) *Term { return mkAnd(c.cmp(token.LEQ, lit(lo), ch, u8), c.cmp(token.LEQ, ch, lit(hi), u8)) }
+						hex := mkOr(rng('0', '9'), rng('a', 'f'), rng('A', 'F'))
+						c.addFact(tTrue, mkImplies(ok, mkAnd(c.cmp(token.LSS, c.idxLit(0), ln, it),
+							mkForall([]*Term{k}, mkImplies(mkAnd(c.cmp(token.LEQ, c.idxLit(0), k, it), c.cmp(token.LSS, k, ln, it)), hex)))))
+					}
+					if zv.Val != nil && zv.Val.Int64() > 0 && zv.Val.Int64() < 64 && c.mode == ModeInt {
+						c.addFact(tTrue, mkImplies(ok, c.cmp(token.LSS, v, c.numLit(new(big.Int).Lsh(bigInt(1), uint(zv.Val.Int64())), u64), u64)))
+					}
+				}
+			}
+			return []*Term{v, e}, true
+		}
 	case "strings.IndexByte":
 		// documented: index of the first instance of c in s, or -1
 		sv := c.eval(st, call.Args[0])
